@@ -85,6 +85,9 @@ pub struct Session {
     /// Environment choice "the flush workers are slow": workers stay parked before
     /// taking their next request while this is set (sequential engines only).
     pub hold_workers: AtomicBool,
+    /// CPU the store's background threads are pinned to (usize::MAX: all CPUs) — the
+    /// home CPU of the thread that created the session.
+    pub pin_cpu: AtomicUsize,
     pub sched: Mutex<Option<Arc<dyn SchedHooks>>>,
     /// Environment action run when the store reaches a named point (sequential engines).
     pub point_cb: Mutex<Option<Box<dyn Fn(&'static str) + Send + Sync>>>,
@@ -114,6 +117,7 @@ impl Session {
             busy_workers: AtomicI64::new(0),
             coordinator_rounds: AtomicU64::new(0),
             hold_workers: AtomicBool::new(false),
+            pin_cpu: AtomicUsize::new(crate::util::home_cpu().unwrap_or(usize::MAX)),
             sched: Mutex::new(None),
             point_cb: Mutex::new(None),
             points_seen: Mutex::new(Vec::new()),
@@ -318,7 +322,10 @@ impl Handler for Session {
 
     fn adopted(&self, role: &'static str) {
         // Background threads inherit the narrow CPU mask used to size the store.
-        crate::util::set_affinity_full();
+        match self.pin_cpu.load(Ordering::SeqCst) {
+            usize::MAX => crate::util::set_affinity_full(),
+            cpu => crate::util::set_affinity_one(cpu),
+        }
         self.adopted.fetch_add(1, Ordering::SeqCst);
         if let Some(s) = self.sched() {
             s.adopted(role);
